@@ -46,10 +46,16 @@ THEOREMS = [
     "Nix.C20.independent_createProperty",
     "Nix.C20.independent_create_entity",
     "Nix.C20.independent_append",
+    "Nix.C20.sideInv_after_copy",
+    "Nix.C20.idInv_after_copy",
+    "Nix.C20.independent_history",
+    "Nix.C20.independent_history_observed",
     "Nix.C20.independent_delete_old_side",
     "Nix.C20.independent_delete_new_side",
     "Nix.C20.independent_delete_partial",
     "Nix.C20.independent_delete_counterexample",
+    "Nix.C20.repaired_delete_old_side",
+    "Nix.C20.repaired_delete_new_side",
 ]
 ASSUMPTIONS = [
     "HDF5's object copy (H5Ocopy through h5py.Group.copy: everything reachable by hard links duplicated once, links "
@@ -721,9 +727,18 @@ def norm_api(records, fresh):
     return recs
 
 
-def mutations(rng, kind, ent, blk, f):
-    """(description, thunk, deleted_id or None) candidates changing the entity `ent` (or something below / linked)"""
+def mutations(rng, kind, ent, blk, f, avoid=frozenset()):
+    """(description, thunk, deleted_id or None) candidates changing the entity `ent` (or something below / linked).
+    `avoid`: addresses of the objects of the *other* side - a mutation that links an array of the surrounding block
+    into `ent` takes one the other side does not reach (else a later change made through that link would, rightly,
+    be visible on the other side: the caller linked an original into the copy)"""
     muts = []
+
+    def outside_array():
+        for a in blk.data_arrays:
+            if addr(h5obj(a)) not in avoid:
+                return a
+        return blk.create_data_array("lnk-%d" % rng.randrange(10 ** 6), "t", data=[1.0, 2.0])
 
     def add(desc, fn, deleted=None):
         muts.append((desc, fn, deleted))
@@ -792,8 +807,8 @@ def mutations(rng, kind, ent, blk, f):
             add("positions data", lambda: ent.positions.write_direct(np.asarray(ent.positions[:]) + 1))
             add("extents off", lambda: setattr(ent, "extents", None))
         if blk is not None:
-            add("reference append", lambda: ent.references.append(blk.data_arrays[-1]))
-            add("create_feature", lambda: ent.create_feature(blk.data_arrays[0], "untagged"))
+            add("reference append", lambda: ent.references.append(outside_array()))
+            add("create_feature", lambda: ent.create_feature(outside_array(), "untagged"))
         add("source unlink", lambda: ent.sources.__delitem__(0))
         add("metadata section definition", lambda: setattr(ent.metadata, "definition", val))
         add("metadata off", lambda: delattr(ent, "metadata"))
@@ -1097,7 +1112,7 @@ class Scenario:
             mi = rng.choice([0, 1])
             mname, ment, mown, mfile = sides[mi]
             oname, oent, oown, ofile = sides[1 - mi]
-            muts = mutations(rng, kind, ment, mown, mfile)
+            muts = mutations(rng, kind, ment, mown, mfile, avoid=frozenset(h5dump(h5obj(oent))[1]))
             plain = [m for m in muts if m[2] is None]
             dels = [m for m in muts if m[2] is not None]
             before = side_state(kind, oent)
